@@ -87,6 +87,7 @@ def run(ctx):
     ctx.rule("R13.c", "every consumer of the namespace goes through _cls_parameters / objects()", floor=6)
     ctx.rule("R13.e", "a class-level set goes through the Parameter that is installed in the class namespace at that moment: on the copy-on-write branch the copy is installed "
                       "(and the caches dropped) before its __set__(None, value) runs watchers", floor=1)
+    ctx.rule("R13.f", "the memo is never mutated in place (it is handed out by reference); invalidation rebinds it", floor=1)
     ctx.rule("R13.d", "the memo is computed by walking the class's own MRO base-first and reading each class' __dict__ (so it agrees with attribute lookup, also in diamonds); "
                       "it is never assembled from other classes' memos", floor=1)
     ctx.not_decided += ["identity/equality of `.param[name]` and the governing descriptor after arbitrary histories (follows from R13.a-c but is not itself executed)"]
@@ -228,3 +229,6 @@ def run(ctx):
                      input="class-level watcher on an inherited Parameter; first Sub.x = v -> inside the callback Sub.x is still the old value")
         else:
             ctx.ok("R13.e", ms, sn, "the set happens after the install%s" % (" and goes through the namespace entry" if via_ns else ""))
+
+    from checks.shared import memo_not_mutated_in_place
+    memo_not_mutated_in_place(ctx, "R13.f")
